@@ -220,15 +220,19 @@ func (c *Cache) cachedCookieJar(sessionID string) (jar http.CookieJar, err error
 	// lru.Cache is not safe for concurrent use, and Get updates its recency list.
 	c.mu.Lock()
 	val, ok := c.cache.Get(sessionID)
-	c.mu.Unlock()
 	if !ok {
+		// Look up and insert in one critical section: two concurrent requests of
+		// the same new (or evicted) session must end up sharing a single jar,
+		// otherwise the cookies stored in the jar that loses the race are lost.
 		options := cookiejar.Options{
 			PublicSuffixList: publicsuffix.List,
 		}
 		jar, err = cookiejar.New(&options)
-		c.addJarToCache(sessionID, jar)
+		c.cache.Add(sessionID, jar)
+		c.mu.Unlock()
 		return jar, err
 	}
+	c.mu.Unlock()
 
 	jar, ok = val.(http.CookieJar)
 	if !ok {
